@@ -74,10 +74,10 @@ FirstBad(cmp, k) == IF k > Len(cmp) THEN <<>>
                     ELSE IF cmp[k][2] # cmp[k][3] THEN <<tid, pos + 1, cmp[k][1]>>
                     ELSE FirstBad(cmp, k + 1)
 
+\* (no LET around the primed conjuncts: TLC would re-evaluate it at every use)
 TStep == /\ pos < Len(T)
-         /\ LET m == Machine(T[pos + 1])
-            IN /\ c' = m.case
-               /\ mismatch' = IF mismatch # <<>> THEN mismatch ELSE FirstBad(m.cmp, 1)
+         /\ c' = Machine(T[pos + 1]).case
+         /\ mismatch' = IF mismatch # <<>> THEN mismatch ELSE FirstBad(Machine(T[pos + 1]).cmp, 1)
          /\ pos' = pos + 1 /\ UNCHANGED tid
 TDone == pos = Len(T) /\ UNCHANGED tvars
 TNext == TStep \/ TDone
